@@ -53,6 +53,17 @@ var recForms = []recForm{
 	{Name: "join-cycle", Src: `var a = [1]; a[1] = a; function __go(d){ return d > 0 ? String(a).length : 0 }`},
 	{Name: "json-toJSON", Native: true, Src: `var o = {toJSON: function(){ return n-- > 0 ? {x: o} : 0 }}, n = 0; function __go(d){ n = d; JSON.stringify(o); return d }`},
 	{Name: "json-replacer", Native: true, Src: `var n = 0; function __go(d){ n = d; JSON.stringify({}, function(k, v){ return n-- > 0 ? {x: 1} : 0 }); return d }`},
+	{Name: "eval-direct-self", Src: `var n = 0, s = "n-- > 0 ? 1 + eval(s) : 0"; function __go(d){ n = d; return eval(s) }`},
+	{Name: "eval-indirect-self", Src: `var n = 0, s = "n-- > 0 ? 1 + (0, eval)(s) : 0"; function __go(d){ n = d; return (0, eval)(s) }`},
+	{Name: "Function-body", Src: `var F; function __go(d){ F = Function("n", "return n > 0 ? 1 + F(n - 1) : 0"); return F(d) }`},
+	{Name: "Function-body-eval", Src: `var n = 0, F; function __go(d){ n = d; F = Function("return n-- > 0 ? 1 + eval('F()') : 0"); return F() }`},
+	{Name: "toString-reentry", Src: `var n = 0, o = {toString: function(){ return n-- > 0 ? "x" + o : "" }}; function __go(d){ n = d; return String(o).length }`},
+	{Name: "toJSON-reentry", Src: `var n = 0, o = {toJSON: function(){ return n-- > 0 ? 1 + JSON.parse(JSON.stringify(o)) : 0 }}; function __go(d){ n = d; return JSON.parse(JSON.stringify(o)) }`},
+	{Name: "replace-callback", Src: `function f(n){ var r = 0; if (n > 0) "a".replace(/a/, function(){ r = 1 + f(n - 1); return "" }); return r } function __go(d){ return f(d) }`},
+	{Name: "map-callback", Src: `function f(n){ return n > 0 ? 1 + [n - 1].map(f)[0] : 0 } function __go(d){ return f(d) }`},
+	{Name: "reduce-callback", Src: `function f(n){ return n > 0 ? [1, 1].reduce(function(a){ return a + f(n - 1) }) : 0 } function __go(d){ return f(d) }`},
+	{Name: "setter", Src: `var c = 0, o = {set s(v){ if (v > 0) { c++; this.s = v - 1 } }}; function __go(d){ c = 0; o.s = d; return c }`},
+	{Name: "instanceof-bound", Src: `function f(n){ return n > 0 ? 1 + f.bind(null).call(null, n - 1) : 0 } function __go(d){ return f(d) }`},
 	{Name: "Function", Src: `function f(n){ return n > 0 ? 1 + Function("n", "return f(n-1)")(n) : 0 } function __go(d){ return f(d) }`},
 }
 
